@@ -20,7 +20,10 @@
       db = the same on `.dedup()`.
     stream `c02_static` : (static INDEX (xK V)×6 (q xKEY…)) → the same observables on the INDEX-th statically typed
                           nesting of the real combinators over the six pairs (no adapter in the harness)
-    stream `c02_macro` : (macro INDEX) → e=…;u=…;g=…;m=<hex of the rendered message>   (fixture table below)
+    stream `c02_macro` : (macro INDEX) → e=…;u=<t|f|->;g=…;m=<hex of the rendered message>
+                         the INDEX-th call site of Model/PropsFixtures.lean (= harness/hcore/src/c02_fixtures.rs):
+                         `emit::props!` (the collection itself), `emit::emit!` and `#[emit::span]` (the event's props at
+                         the emitter; for span sites `e` is sorted because the ambient frame is hash-ordered)
 -/
 import EmitModel.Base.Sexp
 import EmitModel.Model.Props
